@@ -100,6 +100,11 @@ class CallMixin:
         binds = {}
         if func.is_static:
             bound = False
+        if getattr(func, "is_classmethod", False) and params and func.cls is not None:
+            # the class itself is the first argument, however the method was reached (self.m(), cls.m(), Class.m())
+            binds[params[0]] = ("cls", func.cls)
+            params = params[1:]
+            bound = False
         if bound and params and params[0] == "self":
             binds["self"] = selfterm
             params = params[1:]
@@ -174,7 +179,7 @@ class CallMixin:
             return
         if k == "func":
             func = f[1]
-            if func.cls is not None and not func.is_static:
+            if func.cls is not None and not func.is_static and not getattr(func, "is_classmethod", False):
                 # Class.method(self, ...) explicit receiver
                 if not args:
                     yield "raise", self.exc(st, "TypeError", "self"), st
